@@ -25,6 +25,8 @@ type Scenario struct {
 	LossPct   int
 	DupPct    int
 	MaxDelay  int // ms; per-datagram random delay up to this (reordering)
+	Clean     bool // C18: nothing lost / duplicated / reordered, constant one-way delay FixedDelay, reader keeps up, windows as the property demands
+	FixedDelay int // ms
 	Bytes     int // client -> server stream length
 	BackBytes int // server -> client stream length
 	OOB       int // number of out-of-band messages each way
@@ -70,6 +72,9 @@ func mssOf(s *kcp.UDPSession) int { return int(s.VerifKCPState().Mss) }
 func runTransfer(t *testing.T, sc Scenario, sum *summary, tf *vh.TraceFile) {
 	vh.Bubble(t, uint32(sc.Seed*2654435761), 2, func(e *vh.Env) {
 		rng := rand.New(rand.NewSource(sc.Seed))
+		snmp0 := kcp.DefaultSnmp.Copy()
+		snmpClean, resentClean := snmp0, 0
+		var cleanBase sync.Once
 		w := NewWorld(e)
 		w.Owned = sc.Seed%5 == 4 // every fifth run: the dialled session and the listener own their transports
 		kcp.VerifPoolSanitize(vh.EnvInt("SESS_NOSAN", 0) == 0, 64, false)
@@ -85,6 +90,9 @@ func runTransfer(t *testing.T, sc Scenario, sum *summary, tf *vh.TraceFile) {
 		frng := rand.New(rand.NewSource(sc.Seed ^ 0x5bd1e995))
 		e.Hub.SetPolicy(func(d *simnet.Dgram) simnet.Fate {
 			ph := phase.Load()
+			if sc.Clean {
+				return simnet.Fate{Delays: []time.Duration{time.Duration(sc.FixedDelay) * time.Millisecond}, Ordered: true}
+			}
 			if ph == 3 {
 				return simnet.Fate{Delays: []time.Duration{0}}
 			}
@@ -99,6 +107,9 @@ func runTransfer(t *testing.T, sc Scenario, sum *summary, tf *vh.TraceFile) {
 				return simnet.Fate{}
 			}
 			delay := func() time.Duration {
+				if sc.Clean {
+					return time.Duration(sc.FixedDelay) * time.Millisecond
+				}
 				if sc.MaxDelay == 0 {
 					return 0
 				}
@@ -196,7 +207,7 @@ func runTransfer(t *testing.T, sc Scenario, sum *summary, tf *vh.TraceFile) {
 			for off < int64(sc.Bytes) {
 				// buffers smaller than a message are used in message mode too: the rest of the message stays for the next Read
 				n := []int{1 + rng.Intn(3000), 1 + rng.Intn(200), 1, len(buf)}[rng.Intn(4)]
-				if !sc.Cfg.Stream && rng.Intn(2) == 0 {
+				if (!sc.Cfg.Stream && rng.Intn(2) == 0) || sc.Clean {
 					n = len(buf) // a buffer that always fits one message
 				}
 				if sc.PauseMs > 0 && off > int64(sc.Bytes/3) && phase.Load() == 0 && !pausedOnce.Swap(true) {
@@ -232,6 +243,7 @@ func runTransfer(t *testing.T, sc Scenario, sum *summary, tf *vh.TraceFile) {
 				return
 			}
 			var off int64
+			warmed := false
 			rng := rand.New(rand.NewSource(sc.Seed ^ int64(id)*0x2222)) // one generator per goroutine
 			mtuLeft := sc.MtuEvents
 			oobLeft := sc.OOB
@@ -261,6 +273,18 @@ func runTransfer(t *testing.T, sc Scenario, sum *summary, tf *vh.TraceFile) {
 				}
 				chunkMu.Unlock()
 				off += int64(k)
+				if sc.Clean && !warmed {
+					// C18's precondition speaks of the peer's acknowledgement delay: an accepted session exists, with the library's default
+					// 100 ms flush interval, before the application can configure it, and its first scheduled update still fires at that
+					// interval. The measured part of a clean run starts once both ends run with their configured intervals.
+					warmed = true
+					<-accepted
+					time.Sleep(300 * time.Millisecond)
+					cleanBase.Do(func() {
+						snmpClean = kcp.DefaultSnmp.Copy()
+						resentClean = w.Mon.Resent()
+					})
+				}
 				if name == "cli" && sc.Outage > 0 && off > int64(total/2) && !outageOnce.Swap(true) {
 					phase.Store(2)
 					w.Ev(map[string]any{"ev": "outage", "ms": sc.Outage})
@@ -352,7 +376,7 @@ func runTransfer(t *testing.T, sc Scenario, sum *summary, tf *vh.TraceFile) {
 				}
 				last[name] = cur
 				w.Ev(map[string]any{"ev": "bounds", "conn": name, "rcvq": len(st.RcvQueue), "rcvb": len(st.RcvBuf), "rcvwnd": int(st.RcvWnd),
-					"sndb": len(st.SndBuf), "sndwnd": int(st.SndWnd), "sets": sets, "pool": 0})
+					"sndb": len(st.SndBuf), "sndwnd": int(st.SndWnd), "sets": sets, "pool": 0, "rto": int(s.GetRTO()), "minrto": int(st.RxMinrto)})
 			}
 			for i := 0; ; i++ {
 				select {
@@ -400,8 +424,10 @@ func runTransfer(t *testing.T, sc Scenario, sum *summary, tf *vh.TraceFile) {
 		wirePrefix := len(ws)
 		wireContent := vh.Check(ws, 1, 0)
 		chunkMu.Lock()
+		snmpEnd := kcp.DefaultSnmp.Copy()
 		w.Ev(map[string]any{"ev": "end", "complete": done, "wire_prefix": wirePrefix, "wire_content_ok": wireContent, "wire_consistent": wok,
-			"written": sc.Bytes, "chunks_cli": chunks["cli"], "chunks_srv": chunks["srv"]})
+			"written": sc.Bytes, "chunks_cli": chunks["cli"], "chunks_srv": chunks["srv"],
+			"retrans": int(snmpEnd.RetransSegs - snmpClean.RetransSegs), "wire_resent": w.Mon.Resent() - resentClean})
 		chunkMu.Unlock()
 		if sc.CloseMid && sc.Seed%2 == 0 {
 			// the transports start failing writes a little before everything is closed: the sessions keep queueing output that can
@@ -499,7 +525,7 @@ func runTransfer(t *testing.T, sc Scenario, sum *summary, tf *vh.TraceFile) {
 		w.Ev(map[string]any{"ev": "teardown", "leaks": leaks, "backlog_leaks": backlogLeaks, "unclaimed": unclaimed, "pool_gets": gets, "pool_puts": puts, "pool_outstanding": outstanding,
 			"pool_anomalies": anomalies})
 		tf.WriteTrace(map[string]any{"cfg": sc.Cfg, "label": sc.Label, "seed": sc.Seed, "loss": sc.LossPct, "dup": sc.DupPct, "delay": sc.MaxDelay,
-			"closemid": sc.CloseMid, "peerfec": sc.PeerFEC, "faulty": sc.Corrupt > 0 || sc.Garbage > 0}, w.Tr)
+			"closemid": sc.CloseMid, "peerfec": sc.PeerFEC, "faulty": sc.Corrupt > 0 || sc.Garbage > 0, "clean": sc.Clean}, w.Tr)
 		sum.Runs++
 		sum.Events += w.Tr.Len()
 		if sc.LossPct > 0 || sc.DupPct > 0 || sc.MaxDelay > 0 || sc.Outage > 0 || sc.PauseMs > 0 || sc.Corrupt > 0 || sc.Garbage > 0 || sc.CloseMid {
@@ -678,5 +704,29 @@ func TestSessStall(t *testing.T) {
 		sc.Cfg.Stream = true
 		sc.LossPct, sc.DupPct = []int{0, 5}[rng.Intn(2)], 0
 		sc.Bytes = 40000 + rng.Intn(60000)
+	})
+}
+
+// TestSessClean (C18 at session level): a path that loses, duplicates and reorders nothing, with a constant one-way delay D such that
+// 2D + the peer's flush interval stays below the minimum retransmission timeout, a reader that keeps up and a receive window of
+// at least min(send window, 32): no data segment may appear on the wire twice and the library's RetransSegs counter must not
+// move. The RTO reported by both sessions is sampled throughout (C18_SessRtoBounds) -- in every session run, not only here.
+func TestSessClean(t *testing.T) {
+	scenarioBatch(t, "sess_clean", func(r int, rng *rand.Rand, sc *Scenario) {
+		sc.Clean = true
+		sc.LossPct, sc.DupPct, sc.MaxDelay, sc.Outage, sc.PauseMs, sc.CloseMid, sc.MtuEvents, sc.Corrupt, sc.Garbage = 0, 0, 0, 0, 0, false, 0, 0, 0
+		if sc.Cfg.NoDelay == 1 {
+			sc.Cfg.Interval = 10
+			sc.FixedDelay = []int{0, 1, 5, 9}[rng.Intn(4)] // 2*9 + 10 < 30
+		} else {
+			sc.Cfg.Interval = []int{10, 20, 40}[rng.Intn(3)]
+			sc.FixedDelay = []int{0, 1, 5, 20, 29}[rng.Intn(5)] // 2*29 + 40 < 100
+		}
+		if sc.Cfg.RcvWnd < 32 {
+			sc.Cfg.RcvWnd = 32
+		}
+		sc.Cfg.AckNoDelay = rng.Intn(2) == 0
+		sc.BackBytes = []int{0, 20000}[rng.Intn(2)]
+		sc.Bytes = 20000 + rng.Intn(150000)
 	})
 }
